@@ -142,6 +142,87 @@ pub fn exec(op: &str, a: &[u64]) -> Result<Outcome, String> {
             }
             Ok(o)
         }
+        "tensorize" => {
+            // all four task kinds through Batch<TrainItem>::tensorize; labels travel shifted by one (padding -1 = 0)
+            let kind = r.nat()?;
+            let pad = r.nat()? as u32;
+            let tpad = r.nat()? as u32;
+            let rows: Vec<Vec<u32>> = r.list(|r| Ok(r.nats()?.into_iter().map(|x| x as u32).collect()))?;
+            let trows: Vec<Vec<u32>> = r.list(|r| Ok(r.nats()?.into_iter().map(|x| x as u32).collect()))?;
+            let lrows: Vec<Vec<i32>> = r.list(|r| Ok(r.nats()?.into_iter().map(|x| x as i32 - 1).collect()))?;
+            r.end()?;
+            if rows.is_empty() || trows.len() != rows.len() || lrows.len() != rows.len() || kind > 3 {
+                return Err("bad tensorize request".into());
+            }
+            if kind == 0 && lrows.iter().any(|l| l.len() != 1) {
+                return Err("classification needs one label per item".into());
+            }
+            let batch: Vec<TrainItem> = (0..rows.len())
+                .map(|i| {
+                    let input = match kind {
+                        0 => TrainTaskInput::Classification { token_ids: rows[i].clone(), pad_token_id: pad, label: lrows[i][0] },
+                        1 => TrainTaskInput::SequenceClassification { token_ids: rows[i].clone(), pad_token_id: pad, labels: lrows[i].clone() },
+                        2 => TrainTaskInput::Generation { token_ids: rows[i].clone(), pad_token_id: pad, labels: lrows[i].clone() },
+                        _ => TrainTaskInput::ConditionalGeneration {
+                            token_ids: rows[i].clone(),
+                            pad_token_id: pad,
+                            target_token_ids: trows[i].clone(),
+                            target_pad_token_id: tpad,
+                            labels: lrows[i].clone(),
+                        },
+                    };
+                    TrainItem::new(TrainData::new("x".into(), None), input)
+                })
+                .collect();
+            let t = batch.tensorize();
+            let (ids, lens, labels, target) = t.verif_view();
+            let mut v = vec![ids.len() as u64];
+            for row in &ids {
+                enc_nats(&mut v, row.iter().map(|x| *x as u64));
+            }
+            enc_nats(&mut v, lens.iter().map(|x| *x as u64));
+            v.push(labels.len() as u64);
+            for row in &labels {
+                enc_nats(&mut v, row.iter().map(|x| (*x + 1) as u64));
+            }
+            let mut o;
+            match &target {
+                Some((tm, tl)) => {
+                    v.push(1);
+                    v.push(tm.len() as u64);
+                    for row in tm {
+                        enc_nats(&mut v, row.iter().map(|x| *x as u64));
+                    }
+                    enc_nats(&mut v, tl.iter().map(|x| *x as u64));
+                    o = Outcome::new(ok(v));
+                    let m = trows.iter().map(|r| r.len()).max().unwrap_or(0);
+                    for (i, row) in trows.iter().enumerate() {
+                        o.check(tm[i].len() == m && tm[i][..row.len()] == row[..] && tm[i][row.len()..].iter().all(|x| *x == tpad), "padded target id row is not the item's target ids followed only by the target padding");
+                        o.check(tl[i] == row.len(), "reported target length is not the true length");
+                    }
+                    o.check(kind == 3, "target matrix for a task without targets");
+                }
+                None => {
+                    v.push(0);
+                    o = Outcome::new(ok(v));
+                    o.check(kind != 3, "no target matrix for conditional generation");
+                }
+            }
+            let m = rows.iter().map(|r| r.len()).max().unwrap_or(0);
+            for (i, row) in rows.iter().enumerate() {
+                o.check(ids[i].len() == m && ids[i][..row.len()] == row[..] && ids[i][row.len()..].iter().all(|x| *x == pad), "padded id row is not the item's ids followed only by padding");
+                o.check(lens[i] == row.len(), "reported length is not the true length");
+            }
+            if kind == 0 {
+                o.check(labels.iter().zip(&lrows).all(|(a, b)| a == b), "classification labels differ");
+            } else {
+                let ml = lrows.iter().map(|r| r.len()).max().unwrap_or(0);
+                for (i, row) in lrows.iter().enumerate() {
+                    o.check(labels[i].len() == ml && labels[i][..row.len()] == row[..] && labels[i][row.len()..].iter().all(|l| *l == -1), "padded label row is not the item's labels followed only by -1");
+                }
+            }
+            Ok(o)
+        }
         _ => Err(format!("unknown op {op}")),
     }
 }
@@ -191,5 +272,36 @@ pub fn run_c17(ctx: &mut Ctx) {
             enc_nats(&mut v, (0..l).map(|_| ctx.rng.random_range(0..300u64)));
         }
         ctx.case("padids", &v);
+        // all four task kinds, with different pad ids on the input and the target side
+        let kind = ctx.rng.random_range(0..4u64);
+        let rows = ctx.rng.random_range(1..=5);
+        let pad = ctx.rng.random_range(0..300u64);
+        let tpad = if ctx.rng.random_bool(0.3) { pad } else { ctx.rng.random_range(0..300u64) };
+        let mut v = vec![kind, pad, tpad, rows];
+        let mut lens = vec![];
+        for _ in 0..rows {
+            let l = ctx.rng.random_range(0..=7);
+            lens.push(l);
+            enc_nats(&mut v, (0..l).map(|_| ctx.rng.random_range(0..300u64)));
+        }
+        v.push(rows);
+        let mut tlens = vec![];
+        for _ in 0..rows {
+            let l = if kind == 3 { ctx.rng.random_range(0..=7) } else { 0 };
+            tlens.push(l);
+            enc_nats(&mut v, (0..l).map(|_| ctx.rng.random_range(0..300u64)));
+        }
+        v.push(rows);
+        for i in 0..rows as usize {
+            // labels: one per item (classification), one per token (sequence tasks), one per target token
+            let l = match kind {
+                0 => 1,
+                3 => tlens[i],
+                _ => lens[i],
+            };
+            // shifted by one: 0 is the label -1 (ignored position), which real labels may contain
+            enc_nats(&mut v, (0..l).map(|_| ctx.rng.random_range(0..6u64)));
+        }
+        ctx.case("tensorize", &v);
     }
 }
